@@ -141,6 +141,13 @@ counters!(
     runs_relative_path,
     one_shot_planned,
     one_shot_reopened,
+    stalls_planned,
+    stalls_fired,
+    stalls_fired_of_a_second_or_more,
+    stalled_simulated_seconds,
+    loads_with_a_stall_ok,
+    loads_refused_after_stall,
+    monotonic_clock_reads_by_loader,
     loads_refused_drained_source,
     runs_link_chain,
     chdir_ops,
@@ -354,6 +361,9 @@ pub struct Fired {
     pub short_reads: u32,
     /// A one-shot source was opened again and had nothing left.
     pub drained_reopen: bool,
+    /// Reads during which simulated time passed, and how much in all (ms).
+    pub stalls: u32,
+    pub stalled_ms: u64,
 }
 
 impl Fired {
@@ -367,6 +377,7 @@ struct Armed {
     chunk_i: usize,
     eintr_i: usize,
     hard_i: usize,
+    stall_i: usize,
     open_fail_done: bool,
     replace_done: bool,
     replace_before_open_done: bool,
@@ -640,6 +651,7 @@ struct SimFile {
 
 impl Read for SimFile {
     fn read(&mut self, buf: &mut [u8]) -> io::Result<usize> {
+        let _harness = crate::simclock::enter_harness();
         if let Some((s, id)) = &self.sched {
             s.yield_point(*id);
         }
@@ -694,6 +706,23 @@ impl Read for SimFile {
             }
         }
         let a = w.armed.as_mut().unwrap();
+        // 1b. a stalled read: simulated time passes before anything else happens
+        while a.stall_i < a.plan.stalls.len() && pos >= a.plan.stalls[a.stall_i].0.min(len) {
+            let ms = a.plan.stalls[a.stall_i].1;
+            a.stall_i += 1;
+            a.fired.stalls += 1;
+            a.fired.stalled_ms = a.fired.stalled_ms.saturating_add(ms);
+            crate::simclock::advance_ms(ms);
+            advance_wall_ms(ms);
+            w.ctr.inc(C::stalls_fired);
+            if ms >= 1_000 {
+                w.ctr.inc(C::stalls_fired_of_a_second_or_more);
+            }
+            w.ctr.add(C::stalled_simulated_seconds, ms / 1_000);
+            w.log.byte(b's');
+            w.log.u64(pos as u64);
+            w.log.u64(ms);
+        }
         // 2. EINTR
         if a.eintr_i < a.plan.eintr_at.len() && pos >= a.plan.eintr_at[a.eintr_i].min(len) {
             a.eintr_i += 1;
@@ -765,6 +794,12 @@ impl Read for SimFile {
             }
         }
         if let (Some((off, _)), false) = (a.plan.replace_at, a.replace_done) {
+            let off = off.min(len);
+            if off > pos {
+                n = n.min(off - pos);
+            }
+        }
+        if let Some(&(off, _)) = a.plan.stalls.get(a.stall_i) {
             let off = off.min(len);
             if off > pos {
                 n = n.min(off - pos);
@@ -872,7 +907,23 @@ pub fn install_quiet_panic_hook() {
 
 /// Sets this thread's simulated wall clock (the seam behind `Epoch::now`).
 pub fn set_clock(unix_s: Option<u64>) {
+    WALL_MS.with(|c| c.set(unix_s.map(|s| s as u128 * 1_000)));
     verif_seam::set_now(Some(unix_s.map(std::time::Duration::from_secs)));
+}
+
+thread_local! {
+    static WALL_MS: std::cell::Cell<Option<u128>> = const { std::cell::Cell::new(None) };
+}
+
+/// Simulated time passes (a stalled read): the wall clock moves with the monotonic one.
+fn advance_wall_ms(ms: u64) {
+    WALL_MS.with(|c| {
+        if let Some(now) = c.get() {
+            let then = now + ms as u128;
+            c.set(Some(then));
+            verif_seam::set_now(Some(Some(std::time::Duration::from_millis(then.min(u64::MAX as u128) as u64))));
+        }
+    });
 }
 
 /// Does `Epoch::now()` read the simulated clock? (A tree that reaches the system clock some other
@@ -917,6 +968,7 @@ impl Sim {
         }));
         let w2 = world.clone();
         verif_seam::set_opener(Some(Box::new(move |p: &Path| {
+            let _harness = crate::simclock::enter_harness();
             let me = w2.clone();
             // a seam point is a yield point of the concurrent stratum
             let sched = w2.borrow().sched.clone();
@@ -1471,6 +1523,7 @@ impl Sim {
                         w.ctr.add(C::open_fail_planned, plan.open_fail.is_some() as u64);
                         w.ctr.add(C::replace_mid_planned, plan.replace_at.is_some() as u64);
                         w.ctr.add(C::one_shot_planned, plan.one_shot as u64);
+                        w.ctr.add(C::stalls_planned, plan.stalls.len() as u64);
                         if w.deny.is_some() {
                             w.ctr.inc(C::load_while_denied);
                         }
@@ -1479,6 +1532,7 @@ impl Sim {
                             chunk_i: 0,
                             eintr_i: 0,
                             hard_i: 0,
+                            stall_i: 0,
                             open_fail_done: false,
                             replace_done: false,
                             replace_before_open_done: false,
@@ -1496,7 +1550,12 @@ impl Sim {
                         (w.cur(), budget)
                     };
                     let gen_start = self.world.borrow().shared.as_ref().map(|s| s.generation());
-                    let r = catch_unwind(AssertUnwindSafe(|| LeapSecondsFile::from_path(path)));
+                    let r = {
+                        let _loader = crate::simclock::enter_loader();
+                        let _ = crate::simclock::take_mono_reads();
+                        catch_unwind(AssertUnwindSafe(|| LeapSecondsFile::from_path(path)))
+                    };
+                    let mono_reads = crate::simclock::take_mono_reads();
                     let (a, image_at_end) = {
                         let mut w = self.world.borrow_mut();
                         let a = w.armed.take().expect("armed plan vanished");
@@ -1569,9 +1628,13 @@ impl Sim {
                         outcome = 3;
                     } else {
                         w.ctr.inc(C::o3_evaluations);
+                        w.ctr.add(C::monotonic_clock_reads_by_loader, mono_reads);
                         match r {
                             Ok(Ok(p)) => {
                                 w.ctr.inc(C::loads_ok);
+                                if fired.stalls > 0 {
+                                    w.ctr.inc(C::loads_with_a_stall_ok);
+                                }
                                 w.ctr.inc(C::o1_evaluations);
                                 outcome = 0;
                                 let mut matched = None;
@@ -1654,6 +1717,10 @@ impl Sim {
                                     // The loader opened a read-once source a second time and found
                                     // it drained: refusing (the two reads differ) is not a wrong answer.
                                     w.ctr.inc(C::loads_refused_drained_source);
+                                } else if fired.stalls > 0 {
+                                    // A read stalled: a loader with a deadline that gives up
+                                    // (`TimedOut`) is not answering wrongly.
+                                    w.ctr.inc(C::loads_refused_after_stall);
                                 } else if fired.replace.is_some() || changed_by_others || sc.stat_lies != 0 {
                                     // The file changed while it was being loaded, or `stat`
                                     // disagrees with the content: a loader that notices (reads
@@ -1683,6 +1750,7 @@ impl Sim {
                                     && candidates.iter().all(|&c| ctx.images[c].strict)
                                     && fired.replace.is_none()
                                     && !fired.drained_reopen
+                                    && fired.stalls == 0
                                     && !changed_by_others
                                     && sc.stat_lies == 0
                                 {
@@ -1909,6 +1977,9 @@ pub fn describe_fired(f: &Fired) -> String {
     }
     if f.drained_reopen {
         parts.push("a read-once source opened again (nothing left)".to_string());
+    }
+    if f.stalls > 0 {
+        parts.push(format!("{} stalled read(s), {} ms of simulated time in all", f.stalls, f.stalled_ms));
     }
     if parts.is_empty() {
         "nothing".to_string()
